@@ -16,7 +16,8 @@ import traceback
 
 ROOT = os.path.dirname(os.path.dirname(os.path.abspath(__file__)))
 REPO = os.environ.get("VERIF_REPO", "/repo")
-TARGET = os.path.join(ROOT, "target")
+TARGET = os.environ.get("VERIF_TARGET") or os.path.join(ROOT, "target")
+OUT = os.environ.get("VERIF_OUT") or ROOT   # evidence/ and replays/ live here (scratch dir when evaluating seeded changes)
 NWORKERS = int(os.environ.get("VERIF_WORKERS", "16"))
 FIXED_ENV = {"JAWK_VF_A": "alpha", "JAWK_VF_E": "", "JAWK_VF_U": "\u00fc\u00f1\u00ed"}
 
@@ -41,6 +42,16 @@ def _cargo(args, cwd, env_extra=None, timeout=1800):
 def build_driver(profile="release", quiet=True):
     """Build jdrive against /repo's current working tree.  Returns (path, hooks_on)."""
     drv = os.path.join(ROOT, "driver")
+    if os.path.abspath(REPO) != "/repo":
+        # development aid (seeded-change evaluation in a scratch worktree): same driver sources,
+        # dependency path rewritten.  The registered checks always run with REPO = /repo.
+        alt = os.path.join(TARGET, "driver-alt")
+        shutil.rmtree(alt, ignore_errors=True)
+        shutil.copytree(drv, alt, ignore=shutil.ignore_patterns("Cargo.lock", "target"))
+        mf = os.path.join(alt, "Cargo.toml")
+        txt = open(mf).read().replace('path = "/repo"', 'path = "%s"' % os.path.abspath(REPO))
+        open(mf, "w").write(txt)
+        drv = alt
     lock_src = os.path.join(REPO, "Cargo.lock")
     if os.path.exists(lock_src):
         shutil.copyfile(lock_src, os.path.join(drv, "Cargo.lock"))
@@ -599,7 +610,7 @@ def finish(prop, tier, seed, level, stats, t0, rule, min_conclusive, assumptions
     seen = {}
     for v in violations:
         seen.setdefault(v["sig"], v)
-    rdir = os.path.join(ROOT, "replays", prop)
+    rdir = os.path.join(OUT, "replays", prop)
     code = 0
     for ln in known_lines:
         print(ln)
@@ -642,8 +653,8 @@ def finish(prop, tier, seed, level, stats, t0, rule, min_conclusive, assumptions
         "property_id": prop, "tier": tier, "seed": int(seed), "level": level, "coverage": cov,
         "assumptions": assumptions, "wall_s": round(time.time() - t0, 2), "violations": len(seen),
     }
-    os.makedirs(os.path.join(ROOT, "evidence"), exist_ok=True)
-    with open(os.path.join(ROOT, "evidence", prop + ".json"), "w") as f:
+    os.makedirs(os.path.join(OUT, "evidence"), exist_ok=True)
+    with open(os.path.join(OUT, "evidence", prop + ".json"), "w") as f:
         json.dump(ev, f, indent=1, sort_keys=True)
     if code == 0 and (conclusive < min_conclusive or distinct < 2 or stats.inconclusive.get("worker_exception")):
         print("INCONCLUSIVE property=%s conclusive=%d (floor %d) distinct=%d inconclusive=%s" % (
